@@ -17,8 +17,9 @@ def _extra(lines, verdicts):
         down += ("e" in f[4]) or ("d" in f[4])
     dd = [_down_dc(ln) for ln in lines]
     nl, dup = _two_reads(lines)
-    ch, hd = _two_reads_changed(lines)
+    ch, hd, dis = _two_reads_changed(lines)
     return {"two_read_cases": nl, "two_read_cases_with_a_changed_flag": ch, "two_read_cases_whose_picked_node_changed_state": hd,
+            "two_read_cases_whose_picked_node_is_disabled_later": dis,
             "two_read_plans_naming_a_node_twice": dup, "plan_cases_with_a_nonzero_shard": _shards(lines),
             "latency_awareness_census": _census() or "off: builder default None, DefaultPolicy::default None, runner never sets it",
             "preferred_dc_all_down_with_failover": dd.count(True), "preferred_dc_all_down_without_failover": dd.count(False),
@@ -42,8 +43,9 @@ def _shards(lines):
     return c
 
 def _two_reads_changed(lines):
-    """L lines whose second liveness differs from the first / differs for the picked node"""
-    ch = hd = 0
+    """L lines whose second liveness differs from the first / differs for the picked node / disables the picked node
+    (the `8 <= g2` branch of two_reads_matches)"""
+    ch = hd = dis = 0
     for ln in lines:
         if not ln.startswith("L ") or "|" not in ln:
             continue
@@ -56,7 +58,8 @@ def _two_reads_changed(lines):
             if head in ids:
                 i = ids.index(head)
                 hd += f[4][i] != f[5][i]
-    return ch, hd
+                dis += f[5][i] == "d"
+    return ch, hd, dis
 
 def _two_reads(lines):
     n = dup = changed_head = 0
@@ -118,7 +121,9 @@ def _post(lines, verdicts):
             out.append(("diff", lines[0], f"diff generator floor: two-read (L) cases={nl} < {len(lines) // 20}"))
         if dup < 5:
             out.append(("diff", lines[0], f"diff generator floor: two-read plans naming a node twice={dup} < 5"))
-        ch, hd = _two_reads_changed(lines)
+        ch, hd, dis = _two_reads_changed(lines)
+        if dis < len(lines) // 500:
+            out.append(("diff", lines[0], f"diff generator floor: two-read cases whose picked node is disabled at the second read={dis} < {len(lines) // 500}"))
         if ch < len(lines) // 40:
             out.append(("diff", lines[0], f"diff generator floor: two-read cases with a changed flag={ch} < {len(lines) // 40}"))
         if hd < len(lines) // 1000:
@@ -156,7 +161,7 @@ SPEC = {
         "group_of / lwt_sequence / the P_* predicates of Model/Plan.v are the plan order of the property text written over the C04 replica sets",
         "hook scylla::cluster::verif_node_flags (per-host is_enabled / is_connected override) on the pool-less nodes of the real ClusterState::new (scylla::cluster::verif_state::cluster_state_via_new, reject-all host filter); the policy is built by DefaultPolicyBuilder::build(); without a sharder every shard is 0",
         "hashbrown / itertools unique_by: an element is dropped iff an element kept earlier compares equal (the model's dedup)",
-        "the kind-L acceptor is the extracted two_reads_matches (C05_two_reads_accept_sound, C05_two_reads_accepted); when it refuses a plan the driver decides viol / diff by OCaml code (enabled when chosen, permitted, rest duplicate-free, unchanged head not repeated)",
+        "the kind-L acceptor is the extracted two_reads_matches (C05_two_reads_accept_sound, C05_two_reads_accepted); when it refuses a plan, viol / diff is decided by the extracted two_reads_safe_b (enabled when chosen, permitted, rest duplicate-free, unchanged head not repeated: C05_two_reads_safe_b_sound, C05_two_reads_accept_safe, C05_two_reads_model_safe); a replayed `nopick` line is judged by the extracted pick_matches .. None",
     ],
     "assumptions": [
         "latency awareness is not modelled and never enabled",
